@@ -488,4 +488,5 @@ RULES = [
 	('15.w', 'no length / count is added to or multiplied in an 8/16-bit type and widened afterwards (wrap-around at the top of the range; rules/provenance.py)', lambda F: provenance.narrow_for_property(F, 'C15', '15.w')),
 	('15.z', 'named protocol / policy constants in this property\'s files have their reviewed values (rules/provenance.py)', lambda F: provenance.consts_for_property(F, 'C15', '15.z')),
 	('15.x', 'range indexing of fixed-size buffers stays in bounds wherever the end is statically bounded (a wire length byte can be 255; rules/provenance.py)', lambda F: provenance.arrays_for_property(F, 'C15', '15.x')),
+	('15.v', 'field-versus-field comparisons (a received value against a limit, an id against an id) are the reviewed ones: same fields, same operator (rules/provenance.py)', lambda F: provenance.cmps_for_property(F, 'C15', '15.v')),
 ]
